@@ -1,0 +1,9 @@
+//go:build !verif
+
+package rescache
+
+func verifKick(e *EventSubscription)  {}
+func verifBegin(e *EventSubscription) {}
+func verifYield(e *EventSubscription) {}
+func verifEnd(e *EventSubscription)   {}
+func verifGo(f func()) bool           { return false }
